@@ -45,3 +45,17 @@ pub struct HintOutline<'a> {
     pub is_composite: bool,
     pub coords: &'a [F2Dot14],
 }
+
+/// Verification hooks: re-exports of crate-private hinting kernels so that an
+/// external harness can drive them directly. Not part of the public API.
+#[cfg(googlefonts_fontations_verif)]
+pub mod verif {
+    pub use super::call_stack::{CallRecord, CallStack};
+    pub use super::error::HintErrorKind;
+    /// Fixed point helpers of the interpreter.
+    pub mod math {
+        pub use super::super::math::*;
+    }
+    pub use super::round::{RoundMode, RoundState};
+    pub use super::value_stack::ValueStack;
+}
